@@ -20,6 +20,9 @@ Record WF (c : cfg) (s : layer) : Prop := {
                   pending_fc_status s = Some FS_CTS \/ pending_fc_status s = Some FS_OVFLW;
   wf_pend_cts : pending_fc s = true -> pending_fc_status s = Some FS_CTS -> rx_state s = RxWaitCF;
   wf_rxtimer  : timer_running (timer_rx_cf s) = true -> rx_state s = RxWaitCF;
+  wf_rxlive   : rx_state s = RxWaitCF ->
+                  timer_running (timer_rx_cf s) = true \/
+                  (pending_fc s = true /\ pending_fc_status s = Some FS_CTS);
   wf_seq      : 0 <= tx_seqnum s <= 15;
   wf_queue    : Forall req_fresh (tx_queue s);
   wf_req      : forall r, active s = Some r -> 0 <= r_consumed r <= r_size r;
@@ -393,7 +396,9 @@ Proof.
   - assert (pending_fc_status s = Some FS_CTS) as Hcts.
     { destruct (pending_fc_status s) as [x|]; [|discriminate]. apply Z.eqb_eq in Eo. congruence. }
     specialize (Hc Hcts). destruct H0. wf_crush; wf_more.
-  - destruct H0. wf_crush; wf_more.
+  - assert (pending_fc_status s <> Some FS_CTS) as Hn.
+    { intros E. rewrite E in Eo. cbn in Eo. discriminate. }
+    destruct H0. wf_crush; wf_more.
 Qed.
 
 Theorem WF_process_tx c s : WF c s -> WF c (tr_s (process_tx c s)).
@@ -409,12 +414,7 @@ Proof.
     s2 = (if opt_eqb (pending_fc_status (s <| pending_fc := false |>)) (Some FS_CTS)
           then start_rx_cf_timer c (s <| pending_fc := false |>) else s <| pending_fc := false |>) ->
     pending_fc s = true -> WF c s2).
-  { intros s2 -> Hp. pose proof (wf_pend_cts c s H0 Hp) as Hc. pose proof (wf_pending c s H0 Hp) as Hq.
-    destruct (opt_eqb _ _) eqn:Eo; cbn in Eo.
-    - assert (pending_fc_status s = Some FS_CTS) as Hcts.
-      { destruct (pending_fc_status s) as [x|]; [|discriminate]. apply Z.eqb_eq in Eo. congruence. }
-      specialize (Hc Hcts). destruct H0. wf_crush; wf_more.
-    - destruct H0. wf_crush; wf_more. }
+  { intros s2 -> Hp. apply WF_tx_pending; assumption. }
   destruct (pending_fc s) eqn:Ep.
   - specialize (Hpend _ eq_refl eq_refl).
     set (s2 := if opt_eqb _ _ then _ else _) in *.
